@@ -37,6 +37,8 @@ type Op struct {
 	BC  bool    `json:"bc,omitempty"`
 	H   uint32  `json:"h,omitempty"`
 	G   uint64  `json:"g,omitempty"`
+	Q   bool    `json:"q,omitempty"` // quiet: no state dump, no slot bookkeeping (bulk filling)
+	Cnt int     `json:"cnt,omitempty"`
 }
 
 type Script struct {
@@ -121,6 +123,27 @@ func (r *runner) add(m *mtx, vh uint32, vn uint64) {
 		}
 	}
 	r.step(op, "BCode "+codeName(code), true)
+}
+
+// tieCheck reports when the pool's output order could depend on Go's map order / sort ties
+// (equal gas price in different sender groups): the generator is meant to exclude it.
+func (r *runner) tieCheck() {
+	seen := map[uint64]int{}
+	for _, m := range r.txs {
+		if r.pool.GetTransaction(m.tx.Hash()) == nil {
+			continue
+		}
+		grp := m.ref.S
+		if grp < 0 {
+			grp = -int(m.id) - 10
+		}
+		if o, ok := seen[m.tx.GasPrice]; ok && o != grp {
+			r.c.Count("order:price-tie-across-groups")
+			r.c.Note(fmt.Sprintf("price tie %d across groups in profile %s: order may depend on map iteration", m.tx.GasPrice, r.script.Profile))
+			return
+		}
+		seen[m.tx.GasPrice] = grp
+	}
 }
 
 func (r *runner) refs(l []TxRef) []*mtx {
@@ -267,7 +290,16 @@ func (r *runner) exec(op Op) {
 		r.add(p.m, p.height, p.nonce)
 	case "add":
 		r.add(r.tx(*op.Tx), op.VH, op.VN)
+	case "bulk":
+		// Cnt ordinary transactions added in a row (to cross MAX_LIMITATION for CleanStaledEIPTx)
+		for i := 0; i < op.Cnt; i++ {
+			m := r.tx(TxRef{S: -1, N: uint32(1000000 + i), P: uint64(10 + i), Tag: uint32(1000000 + i)})
+			code := r.pool.AddTxList(&tc.VerifiedTx{Tx: m.tx, VerifiedHeight: op.VH, Nonce: 0})
+			r.c.Eval()
+			r.steps = append(r.steps, fmt.Sprintf("S0 (CAdd %s %d 0) (BCode %s)", r.coqTx(m), op.VH, codeName(code)))
+		}
 	case "get":
+		r.tieCheck()
 		var valid []*tc.VerifiedTx
 		var old []*types.Transaction
 		panicked, msg := hx.Recover(func() { valid, old = r.pool.GetTxPool(op.BC, op.H) })
@@ -356,6 +388,7 @@ func (r *runner) exec(op Op) {
 		}
 		r.step("CRemain", "BTxs "+hx.CoqList(s), true)
 	case "propose":
+		r.tieCheck()
 		r.propose()
 	case "verifylist":
 		ms := r.refs(op.Txs)
@@ -427,7 +460,7 @@ func Run(c *hx.Ctx) {
 			n++
 		}
 	}
-	for _, sc := range fixedScripts() {
+	for _, sc := range fixedScripts(c.Quick()) {
 		runScript(c, sc, n, "fixed")
 		n++
 	}
